@@ -47,6 +47,7 @@ Definition snap_eqb (a b : N * Z) : bool := (fst a =? fst b) && (snd a =? snd b)
 Inductive sitem :=
 | SI (h : N) (il : list N)    (* node h of the trie, children [il] sent inline *)
 | SForeign (h : N)            (* decodable node that is not part of the trie *)
+| SForeignNC (h : N)          (* the same, in a non-canonical encoding *)
 | SBad.                       (* undecodable bytes *)
 Inductive sop := SNodes (b : list sitem) | SRestart.
 (* after the operation: error returned, panicked, unknown hashes (sorted ids) *)
@@ -63,6 +64,7 @@ Definition to_item (T : tree) (i : sitem) : item :=
   match i with
   | SI h il => match lookup T h with Some n => IWire h n il | None => IBad end
   | SForeign h => IWire h (mkNode [] (Some 0)) []
+  | SForeignNC h => IWire h (mkNode [] (Some 0)) [h]
   | SBad => IBad
   end.
 
